@@ -395,7 +395,7 @@ func runC03(w *mon.W) {
 		if nontrivial || (len(frames) > 1 && frames[0].class == "valid" && len(frames[0].bytes) == M) {
 			w.NT(fmt.Sprintf("%d/%s", M, strings.Join(classes, ",")))
 		}
-		if w.WantSample() && w.Rng.Intn(300) == 0 {
+		if w.SampleDue(101) {
 			w.Sample(map[string]interface{}{"msize": M, "channel": how, "chunking": chunkName, "frames": classes, "stream_head": hexHead(stream)})
 		}
 	}
